@@ -27,7 +27,7 @@ table = ('## 11. Seeded changes (independent sub-agents) and which checks catch 
          'Of %d changes, %d were missed by the check as it stood and led to a generator / oracle extension, %d broke something the property '
          'does not state; all others were caught as built. Side notes of the seed authors about the UNMODIFIED tree were triaged one '
          'by one (sections 8 and 9).\n\n' % (len(rows), n_missed, n_na) +
-         'Missed at first, per round of 20 (a-g): ' + ', '.join('%s %d' % (t, sum(1 for r in rows if r.startswith('| C') and r.split('|')[1].strip().endswith('-' + t) and 'missed at first' in r)) for t in 'abcdefg') +
+         'Missed at first, per round of 20 (a-g): ' + ', '.join('%s %d' % (t, sum(1 for r in rows if r.startswith('| C') and r.split('|')[1].strip().endswith('-' + t) and 'missed at first' in r)) for t in 'abcdefg') + '; round h (the eight properties with the lowest first-evaluation catch rate only): %d of 8' % sum(1 for r in rows if r.startswith('| C') and r.split('|')[1].strip().endswith('-h') and 'missed at first' in r) +
          '. The rate did not fall from round to round because every round was told what the earlier ones had used and asked for a site '
          'and a trigger combination nobody had used yet: each round measures what the generators still do not reach, not what they '
          'reach. What the rounds bought is the list of input classes added to the generators (the "Further streams" / "Round" '
